@@ -33,6 +33,14 @@ CLAIMS = {
    note=NOTE_COMMON + "A-LINALG (C12) assumed for fs_diagonalize_hermitian/fs_svd/fs_diagonalize_symmetric: reconstruction Z^dagger diag(m^2) Z, unitarity and ordering of the reported factors "
         "are exactly that assumption applied to the proved matrices; IEEE rounding not covered.",
    technique="symbolic execution of the extracted generated code + z3 NRA against an independent Lagrangian spec; exception/flag effects as ghost state", design='5 C04'),
+ 'C07': dict(
+   text="Decoupling as a units (mass-dimension) contract on the real MSSM a_mu, correction and uncertainty functions: the extracted code is interpreted over dimensions (masses 1, squared "
+        "masses 2, couplings and mixings 0); every sum, difference, comparison and conditional joins equal dimensions, logarithms and loop functions receive dimensionless arguments, "
+        "Iabc has dimension -2, and every function returns a dimensionless number on ALL paths.  Hence each contribution is exactly homogeneous of degree 0 under a common rescaling of all "
+        "dimensionful inputs, i.e. it falls like 1/k^2 through its explicit m_mu^2 prefactor when only the SUSY scale is raised; the 2L uncertainty is >= its floor.",
+   note=NOTE_COMMON + "NOT decided: the size of the O((MZ/M_SUSY)^2) corrections and the numerical ratios of the quantifier (asymptotic statements); the units interpretation shares the extractor/interpreter "
+        "with the other back ends; field dimensions are assigned from the documentation of MSSMNoFV_onshell.",
+   technique="abstract interpretation of the extracted code over mass dimensions (units contract), all paths", design='5 C07'),
  'C08': dict(
    text="Contracts on the real THDM construction code for ALL admissible mass-basis inputs: the lambda_1..5 inversion composed with the tree-level "
         "EWSB and the three Higgs mass matrices has exactly the input spectrum (R(alpha)^T M2_hh R(alpha) = diag(mh^2,mH^2), Goldstone eigenvectors and "
